@@ -97,8 +97,10 @@ def normalize_shape_rules(run):
         LIMITED = ('strncmp', 'memcmp', 'strncasecmp', 'compare', 'find', 'rfind', 'starts_with', 'substr')
         for c in pops:
             dec = [(a_, p_) for a_, p_ in q.guards_at(hf, c) if not _svar_atom(a_) and '..' in q.render(hf, a_)]
-            lim = [q.callee_name(y) or y.get('callee') for a_, _p in q.guards_at(hf, c) for y in walk(a_) if y['k'] == 'call' and ((q.callee_name(y) or y.get('callee') or '').split('::')[-1] in LIMITED)]
-            whole = any(a_['k'] == 'call' and (a_.get('callee') or '') in ('std::operator==', 'std::operator!=') for a_, _p in dec)
+            lim = [q.callee_name(y) or y.get('callee') for a_, _p in q.guards_at(hf, c) for y in walk(a_) if y['k'] == 'call' and ((q.callee_name(y) or y.get('callee') or '').split('::')[-1] in LIMITED)
+                   and not ((q.callee_name(y) or y.get('callee') or '').split('::')[-1] == 'compare' and len(y.get('args', [])) == 1)]      # s.compare(t) compares the whole strings
+            whole = any(a_['k'] == 'call' and (a_.get('callee') or '') in ('std::operator==', 'std::operator!=') for a_, _p in dec) or any(
+                y['k'] == 'call' and (y.get('callee') or '').split('::')[-1] == 'compare' and 'basic_string' in (y.get('callee') or '') and len(y.get('args', [])) == 1 for a_, _p in dec for y in walk(a_))
             if not dec:
                 run.unrecognised('R5', 'detour-is-whole-segment', '%s: %s' % (hf.norm, q.render(hf, c)[:50]), hf.loc(c), 'no guard mentioning ".." dominates the removal (the detour test changed shape)')
                 continue
